@@ -6,7 +6,7 @@ from ..core import hexs, unhex, sx_parse, sx_str
 from ..runner import Stream
 
 ID = "C16"
-AREAS = ["aot"]
+AREAS = ["aot", "fish"]
 RULE = ("random command trees (subcommand depth <= 3; visible and hidden aliases of commands and of options; hyphenated "
         "names; names sharing prefixes; names repeated at different levels; options with only a short or only a long; "
         "positionals; value hints; possible values, some hidden; global args; version / propagate_version / disabled "
@@ -24,7 +24,11 @@ TRUSTED = [
     "model of what bash does with the fixed script shape (BashModel.step / lookup_case / compgen_W / bash_complete): "
     "validated against the installed bash on every query of every run, not proved about bash",
     "zsh, fish, PowerShell, elvish, nushell are not installed: their scripts are only searched for the tokens in the "
-    "shell-specific syntactic form (python oracle); no model of their generators",
+    "shell-specific syntactic form (python oracle); no model of the zsh/PowerShell/elvish/nushell generators",
+    "fish generator model: Complete/FishModel.v (hand-written from fish.rs; description texts in a decoration parallel "
+    "to the AotTree command tree, dbuild = what Command::build does to them), extraction ExtractFish.v, OCaml driver "
+    "ocaml/fish_driver.ml (readers of the aot and aottext spec formats); tied by comparing the whole generated file byte "
+    "for byte (streams fish-model, fish-model-names)",
 ]
 ASSUMPTIONS = [
     "words on the completed command line contain no IFS white space and no glob characters (the script iterates over an "
@@ -760,6 +764,74 @@ def nontrivial(case, impl):
     return impl.startswith("(shell") and "(subs (node" in impl
 
 
+# ---- fish generator model ----
+def fish_project(r):
+    """the generated file, byte for byte (implementation: `(script x..)` item of the aot result; model: the same item)"""
+    if r is None:
+        return "none"
+    if r.startswith("PANIC"):
+        return "PANIC"
+    m = re.search(r"\(script (x[0-9a-f]*)\)", r)
+    return "script " + m.group(1) if m else r.split(" ")[0]
+
+
+FISH_NAME_BYTES = ["'", "\\", ",", "$", "#", " ", "\"", "`", "(", ")", ";", "\t", "é", "%", "~", "*", "=", "\n", "-", "_"]
+
+
+def fish_names_case(rng):
+    """a small valid tree (depth <= 3 below the root) with adversarial names; every name ends in a serial number
+    (unique), no name starts with '-' (clap's configuration check), shorts are distinct over the tree"""
+    k = [0]
+
+    def fresh():
+        k[0] += 1
+        s = "".join(rng.choice(FISH_NAME_BYTES + list("abc")) for _ in range(rng.choice([1, 2, 3])))
+        if s.startswith("-"):
+            s = "a" + s
+        return s + "n%d" % k[0]
+
+    shorts = [c for c in FISH_NAME_BYTES if c != "-"] + list("xyz")
+    rng.shuffle(shorts)
+
+    def arg():
+        items = ["arg", hexs(fresh())]
+        kind = rng.choice(["flag", "opt", "optpv", "pos"])
+        if kind != "pos":
+            r = rng.random()
+            if r < 0.7 and shorts:
+                items.append("(s %s)" % hexs(shorts.pop()))
+                if rng.random() < 0.2 and shorts:
+                    items.append("(vsa %s)" % hexs(shorts.pop()))
+            if r > 0.3 or len(items) == 2:
+                items.append("(l %s)" % hexs(fresh()))
+                if rng.random() < 0.3:
+                    items.append("(vla %s)" % hexs(fresh()))
+        items.append("(act %s)" % ("flag" if kind == "flag" else "set"))
+        if kind == "optpv" or (kind == "pos" and rng.random() < 0.5):
+            for _ in range(rng.choice([1, 2, 3])):
+                items.append("(%s %s)" % (rng.choice(["pv", "pv", "hpv"]), hexs(fresh())))
+        return "(" + " ".join(items) + ")", kind == "pos"
+
+    def cmd(depth):
+        items = ["cmd", hexs(fresh() if depth else "prog")]
+        if depth and rng.random() < 0.4:
+            items.append("(va %s)" % hexs(fresh()))
+        npos = 0
+        for _ in range(rng.choice([0, 1, 2, 3])):
+            a, is_pos = arg()
+            if is_pos and npos:
+                continue
+            npos += is_pos
+            items.append(a)
+        if depth < 3:
+            for _ in range(rng.choice([0, 1, 2] if depth < 2 else [0, 1])):
+                items.append(cmd(depth + 1))
+        return "(" + " ".join(items) + ")"
+
+    return "(aot fish %s %s)" % (hexs(rng.choice(["prog", "my-prog", "a b", "q'r"])), cmd(0))
+# ---- end fish generator model ----
+
+
 # ----------------------------------------------------------------- adversarial trees (known families and their borders)
 def adv_dunder(g, rng):
     """names with '__', a trailing '_', and paths that collide after '-' -> '__'"""
@@ -837,23 +909,53 @@ def streams(tier, rng):
         cases.append(c)
         merge(dist, st)
     out.append(Stream("adversarial", cases, oracle=oracle, area="aot", project=project, nontrivial=nontrivial, describe=dist))
+    # ---- fish generator model ----
+    # 4. the byte-exact Gallina model of fish.rs (Complete/FishModel.v, driver ocaml/fish_driver.ml) against the real
+    #    generator: the whole file is compared, whitespace included
+    n = 120 if quick else 1500
+    cases, dist = [], {}
+    for i in range(n):
+        prof = {"alias_without_primary": True} if i % 8 == 7 else None
+        c, st = make_case(rng, "fish", tier, profile=prof)
+        cases.append(c)
+        merge(dist, st)
+    out.append(Stream("fish-model", cases, oracle=oracle, area="fish", project=fish_project, nontrivial=nontrivial,
+                      describe=dist))
+    # 5. the same comparison on trees whose names (commands, aliases, longs, shorts, possible values, bin) contain
+    #    quotes, backslashes, commas, '$', '#', white space, newlines, non-ASCII: escape_string / the comma rule /
+    #    raw emission, byte for byte.  No oracle: the token search of the mention oracle looks for the raw spelling.
+    cases = [fish_names_case(rng) for _ in range(60 if quick else 1200)]
+    out.append(Stream("fish-model-names", cases, area="fish", project=fish_project, nontrivial=nontrivial,
+                      describe={"trees": len(cases), "name alphabet": [repr(c) for c in FISH_NAME_BYTES]}))
+    # ---- end fish generator model ----
     return out
 
 
 TECHNIQUE = ("Coq proof (tree-walk soundness/completeness of utils.rs and of the bash generator's transition and case "
-             "tables, by induction over command trees of any depth) + extracted-model/implementation correspondence "
-             "(script, built tree, COMPREPLY under the installed bash) + token oracle for the other five shells")
+             "tables, by induction over command trees of any depth; byte-exact Gallina model of the fish generator with "
+             "mention theorems for the root and both supported subcommand levels) + extracted-model/implementation "
+             "correspondence (bash script, fish file byte for byte, built tree, COMPREPLY under the installed bash) + "
+             "token oracle for all six shells")
 LEVEL_TEXT = ("Machine-checked theorems (Coq 8.16, closed under the global context) about an executable model of "
               "clap_complete's generator/utils.rs and shells/bash.rs: all_subcommands lists exactly the (name or visible "
               "alias, bin path) pairs of every non-root node; shorts/longs/flags/possible_values return exactly the "
               "visible spellings; for mangle_safe trees every path of names or visible aliases drives the generated "
               "cmd,word) table to the function of the addressed node and that function's opts are exactly the node's "
-              "options and subcommand words; the model of bash's reading of the script then replies, for a partial word that is not itself a child's word, exactly the words of the addressed level that start with it (compgen -W = prefix filter).  The model is tied to the real crates on "
-              "every check: the extracted model's bash script, built tree and COMPREPLY lists are compared with the real "
-              "generator's script, Command::build and the installed bash; a python oracle written from the property text "
+              "options and subcommand words; the model of bash's reading of the script then replies, for a partial word that is not itself a child's word, exactly the words of the addressed level that start with it (compgen -W = prefix filter).  "
+              "fish: a byte-exact model of shells/fish.rs (generate, gen_fish_inner, gen_subcommand_helpers, "
+              "value_completion, the escapes) over the built tree; generation is total (fails only on a missing bin name) "
+              "and deterministic; for every tree with a bin name, for the root and every node reached by one or two names "
+              "or visible aliases, every named argument has a line carrying every short/long spelling the accessors "
+              "return (in the class aliases_have_primary: every short, long and visible alias) and every non-hidden "
+              "possible value, and every subcommand name and visible alias has its -a line; below two levels the "
+              "generator writes nothing (proved; witness replayed), and outside aliases_have_primary a visible alias is "
+              "written nowhere (the recorded finding).  The models are tied to the real crates on "
+              "every check: the extracted model's bash script, the fish file (byte for byte, incl. adversarial names), built tree and COMPREPLY lists are compared with the real "
+              "generator's output, Command::build and the installed bash; a python oracle written from the property text "
               "checks token coverage for all six shells and bash's replies per subcommand path and partial word.")
-LEVEL_NOTE = ("Partial: zsh/fish/PowerShell/elvish/nushell cannot be executed here and have no generator model (token "
-              "oracle only); bash itself is validated by execution, not proved; known findings (see known_findings.json) "
+LEVEL_NOTE = ("Partial: zsh/PowerShell/elvish/nushell have no generator model (token oracle only); fish has a byte-exact "
+              "generator model with theorems but cannot be executed here (what fish does with the complete lines is not "
+              "modelled); bash itself is validated by execution, not proved; known findings (see known_findings.json) "
               "are outside the proved class.")
 
 
